@@ -43,6 +43,9 @@ func concAllOrders(c, n int, f func(script []int)) {
 }
 
 func genC06(c *Ctx) {
+	var cases []concGenCase
+	emit := func(nt bool, text string) { cases = append(cases, concGenCase{nt, text}) }
+	defer func() { concEmitAll(c, "C06", cases) }()
 	maxC := c.Pick(3, 4)
 	// exhaustive small scope: every completion order of the gated mapper / consumer calls
 	for _, op := range []string{"cmap", "ccons"} {
@@ -53,7 +56,7 @@ func genC06(c *Ctx) {
 			}
 			for n := 0; n <= maxN; n++ {
 				concAllOrders(cc, n, func(script []int) {
-					c.Case(cc >= 2 && n >= 2, fmt.Sprintf("%s c=%d n=%d sync=1 mg=1 script=%s", op, cc, n, concScript(script)))
+					emit(cc >= 2 && n >= 2, fmt.Sprintf("%s c=%d n=%d sync=1 mg=1 script=%s", op, cc, n, concScript(script)))
 				})
 			}
 		}
@@ -78,7 +81,7 @@ func genC06(c *Ctx) {
 		for j := range script {
 			script[j] = c.Rng.Intn(16)
 		}
-		c.Case(cc >= 2 && n >= 2, fmt.Sprintf("%s c=%d n=%d sync=1 mg=1 cg=%d sg=%d script=%s", op, cc, n, cg, sg, concScript(script)))
+		emit(cc >= 2 && n >= 2, fmt.Sprintf("%s c=%d n=%d sync=1 mg=1 cg=%d sg=%d script=%s", op, cc, n, cg, sg, concScript(script)))
 	}
 	// free-running: the Go scheduler picks the interleaving; slow and fast sources; gated or immediate callbacks
 	nf := c.Pick(250, 4000)
@@ -93,6 +96,6 @@ func genC06(c *Ctx) {
 			script[j] = c.Rng.Intn(16)
 		}
 		size := c.Rng.Range(2, 5)
-		c.Case(cc >= 2 && n >= 2, fmt.Sprintf("%s c=%d n=%d size=%d sync=0 mg=%d yield=%d script=%s", op, cc, n, size, mg, yield, concScript(script)))
+		emit(cc >= 2 && n >= 2, fmt.Sprintf("%s c=%d n=%d size=%d sync=0 mg=%d yield=%d script=%s", op, cc, n, size, mg, yield, concScript(script)))
 	}
 }
